@@ -76,6 +76,15 @@ def work(args):
             agg['notes'][(res.status + ': ' + (res.note or ''))[:160]] += 1
         if len(agg['samples']) < 2 and res.status == 'ok' and 3 <= len(res.ops) <= 9:
             agg['samples'].append({'seed': s, 'ops': res.ops})
+        if res.status == 'ok' and engine.FOCUS[focus].get('variants'):
+            for vi, vops in enumerate(engine.fault_variants(res)):
+                r2 = engine.run(focus, ops_list=vops, profile=profile)
+                agg['stats']['variants.run'] += 1
+                agg['stats'].update(r2.stats)
+                agg['evals'] += r2.evals
+                agg['trans'] |= r2.trans
+                if r2.status == 'violation' and len(agg['viols']) < 4:
+                    agg['viols'].append(('%s-v%d' % (s, vi), r2.violation, r2.ops))
     faulthandler.cancel_dump_traceback_later()
     return agg
 
@@ -168,6 +177,22 @@ def minimise_and_report(focus, seed, violation, ops):
     return path, ok, v, len(small)
 
 
+def run_regressions(focus):
+    """replays of fixed findings (found/regress) are ordinary regression tests"""
+    import glob
+    bad = []
+    files = sorted(glob.glob(os.path.join(ROOT, 'found', 'regress', focus + '-*.json')))
+    for p in files:
+        res = replay_file(focus, p, quiet=True)
+        if res.status == 'violation':
+            bad.append((p, res.violation))
+        elif res.status != 'ok':
+            print("HARNESS-ERROR regression replay %s ended as %s: %s" % (p, res.status, res.note))
+            sys.exit(2)
+    run_regressions.count = len(files)
+    return bad
+
+
 # ---------------------------------------------------------------------------- evidence
 def write_evidence(focus, tier, vseed, level, total, extra):
     os.makedirs(os.path.join(ROOT, 'evidence'), exist_ok=True)
@@ -236,10 +261,16 @@ def main(argv=None):
         return 0
     t0 = time.time()
     known = findings.report_known(focus)
+    regress_bad = run_regressions(focus)
     total = batch(focus, a.seed, a.tier, a.runs, a.jobs, a.wall)
     spec = engine.FOCUS[focus]
     rc = 0
     reported = []
+    for path, v in regress_bad:
+        print("VIOLATION property=%s replay=%s" % (focus, path))
+        print("  (regression of a fixed finding) oracle=%s/%s" % (v['oracle'], v['sub']))
+        reported.append({'replay': path, 'oracle': v['oracle'], 'sub': v['sub'], 'regression': True})
+        rc = 1
     if total['status'].get('harness-error'):
         print("HARNESS-ERROR %d runs crashed inside the harness: %s" % (
             total['status']['harness-error'], list(total['notes'])[:1]))
@@ -250,6 +281,7 @@ def main(argv=None):
             dict(total['status']), total['notes'].most_common(2)))
         rc = 2
     if total['viols']:
+        rc = 1
         seen = set()
         for seed, v, ops_ in total['viols']:
             sig = (v['oracle'], v['sub'])
@@ -274,6 +306,7 @@ def main(argv=None):
     extra.setdefault('rule', 'seeded class-directed histories; distinct = distinct (model state digest, '
                              'operation class) transitions after which the focused oracle was evaluated')
     extra['known_findings_printed'] = known
+    extra['regression_replays_run'] = getattr(run_regressions, 'count', 0)
     extra['violations_reported'] = reported
     extra['components'] = REAL_VS_STUB
     extra['hashseed'] = os.environ.get('PYTHONHASHSEED')
